@@ -8546,7 +8546,11 @@ let execute u cfg c =
           ebind (set_kr k') (fun _ ->
             ebind
               (match t with
-               | Some text -> edit_yank u cfg text a n0
+               | Some text ->
+                 ebind (edit_yank u cfg text a n0) (fun _ ->
+                   if is_emacs0 cfg
+                   then eret ()
+                   else ebind eget (fun s2 -> set_kr (kr_reset s2.e_kr)))
                | None -> eret ()) (fun _ -> eret Proceed)))
       | CYankPop ->
         ebind eget (fun s ->
